@@ -2680,6 +2680,12 @@ LZ4_decompress_fast_continue (LZ4_streamDecode_t* LZ4_streamDecode,
     DEBUGLOG(5, "LZ4_decompress_fast_continue (toDecodeSize=%i)", originalSize);
     assert(originalSize >= 0);
 
+    if (originalSize == 0) {
+        /* an empty block regenerates nothing : the history (prefix, extDict) remains as it is,
+         * whatever @dest, as in LZ4_decompress_safe_continue() */
+        return LZ4_decompress_fast(source, dest, 0);
+    }
+
     if (lz4sd->prefixSize == 0) {
         DEBUGLOG(5, "first invocation : no prefix nor extDict");
         assert(lz4sd->extDictSize == 0);
